@@ -195,7 +195,32 @@ def falsify_C05(ctx):
         which = "rr" if rng.random() < 0.5 else "bw"
         sup = gen_res_supply(rng)
         cbs = []
-        if rng.random() < 0.35:
+        fam = rng.random()
+        if fam < 0.2:
+            # backlog: one polled callback releases k+1 instances at once (jitter = k periods, k = 2..4) and
+            # needs k+1 polling points; another polled callback has a fresh instance for every window
+            if rng.random() < 0.7:
+                sup = ("ded",)
+            Tb = rng.randint(8, 16)
+            Cb = rng.randint(3, max(3, Tb // 2))
+            Ta = rng.randint(300, 1000)
+            k = rng.randint(2, 4)
+            # a window (one instance of each) is about as long as the short period, so that the short
+            # callback has a fresh instance at (almost) every polling point while the backlog drains
+            Ca = max(1, Tb - Cb + rng.randint(-2, 3))
+            cbs.append({"kind": "P", "prio": 0, "cost": Cb, "arr": ("per", Tb), "tag": ("P 0" if rng.random() < 0.5 else "U")})
+            cbs.append({"kind": "P", "prio": 1, "cost": Ca, "arr": ("spo", Ta, k * Ta), "tag": ("P 1" if rng.random() < 0.5 else "U")})
+            if rng.random() < 0.3:
+                cbs.append({"kind": "T", "prio": 0, "cost": 1, "arr": ("per", rng.randint(40, 90)), "tag": "T"})
+            if rng.random() < 0.5:
+                cbs.reverse()
+                for x in cbs:
+                    if x["kind"] == "P":
+                        x["prio"] = 1 - x["prio"]
+                        if x["tag"].startswith("P"):
+                            x["tag"] = f"P {x['prio']}"
+            dist["backlog"] = dist.get("backlog", 0) + 1
+        elif fam < 0.5:
             # few callbacks, long callbacks, bursts of two or three instances (jitter close to / above
             # the period), often a dedicated processor: the caps on polled interference are binding
             if rng.random() < 0.5:
